@@ -26,15 +26,13 @@ Inductive kev :=
 Inductive ev := EK (k : kev) | EC (c : call).
 
 Definition lookup (t : list kproc) (p : Z) : option kproc := find (fun k => kpid k =? p) t.
-Definition ELIGIBLE : list Z := [0; 1; 2; 3].
 
 Definition view_of (w : world) : kview :=
   {| kv_stat := fun p => match lookup (table w) p with
                          | Some k => Some (kstart k, kppid k, kzomb k) | None => None end;
      kv_ctime_ok := fun _ => true;        (* the simulated kernel never denies reading /proc/<pid>/stat *)
      kv_pids := map kpid (table w);
-     kv_btime := btime w;
-     kv_elig := fun _ => ELIGIBLE |}.
+     kv_btime := btime w |}.
 
 Definition world0 : world :=
   {| table := []; hist := []; nextinc := 0; btime := 1500000000; ms := mstate0; ginc := [] |}.
@@ -125,7 +123,7 @@ Definition intended (p : Z) (s : setter) : sysc :=
   | Nice v => SNice p v
   | Ionice cls v => SIonice p cls (match v with Some n => n | None => 0 end)
   | Rlimit rsrc lims => SRlimit p rsrc (nth 0 lims 0) (nth 1 lims 0)
-  | Affinity cpus => SAffinity p (sort_uniq (match cpus with [] => ELIGIBLE | _ => cpus end))
+  | Affinity cpus => SAffinity p (sort_uniq (match cpus with [] => ALL_CPUS | _ => cpus end))
   end.
 
 (* arguments the documented interface accepts (everything else is a ValueError and changes nothing) *)
